@@ -151,6 +151,14 @@ func Main(t any, spec Spec) error {
 		if sum.Hashes != nil {
 			sum.Hashes[strconv.FormatUint(i, 10)] = r.TraceHash()
 		}
+		if d := os.Getenv("VERIF_DUMP_TRACES"); d != "" {
+			os.MkdirAll(d, 0o755)
+			var b []byte
+			for _, l := range r.Trace() {
+				b = append(append(b, l...), '\n')
+			}
+			os.WriteFile(filepath.Join(d, fmt.Sprintf("run%d.trace", i)), b, 0o644)
+		}
 		v := r.Violation()
 		if v == nil {
 			continue
